@@ -23,10 +23,16 @@ func (v *Vue) evalConditionExpr(ctx VueContext, expr string) (bool, error) {
 	expr = helpers.NormalizeComparisonOperators(expr)
 
 	// Try to evaluate as expr expression first (supports ==, !=, &&, ||, !, <, >, <=, >=, and function calls)
-	result, err := v.exprEval.Eval(expr, ctx.stack.EnvMap())
+	env, callErr := v.exprEnvWithErr(ctx)
+	result, err := v.exprEval.Eval(expr, env)
 	if err == nil {
 		// Successfully evaluated with expr - convert to boolean
 		return helpers.IsTruthy(result), nil
+	}
+
+	// A failing or unknown template function is an error of the render, not a false condition.
+	if ferr := funcFailure(expr, env, *callErr); ferr != nil {
+		return false, ferr
 	}
 
 	// If expr evaluation failed and expression starts with !, handle nil negation manually.
@@ -35,7 +41,7 @@ func (v *Vue) evalConditionExpr(ctx VueContext, expr string) (bool, error) {
 	if strings.HasPrefix(expr, "!") {
 		innerExpr := strings.TrimSpace(expr[1:])
 		// Try to evaluate inner expression (may return nil)
-		innerResult, innerErr := v.exprEval.Eval(innerExpr, ctx.stack.EnvMap())
+		innerResult, innerErr := v.exprEval.Eval(innerExpr, v.exprEnv(ctx))
 		if innerErr == nil {
 			// Successfully evaluated - convert nil to bool and negate
 			return !helpers.IsTruthy(innerResult), nil
@@ -179,7 +185,7 @@ func (v *Vue) evaluateNodeAsElement(ctx VueContext, node *html.Node, depth int) 
 			// Evaluate the bound attribute expression
 			// Use expression evaluator for templates to support literals and expressions
 			expr := strings.TrimSpace(attr.Val)
-			val, err := v.exprEval.Eval(expr, ctx.stack.EnvMap())
+			val, err := v.exprEval.Eval(expr, v.exprEnv(ctx))
 			if err == nil {
 				// Expression evaluated successfully
 				ctx.stack.Set(boundName, val)
